@@ -332,6 +332,7 @@ struct Env {
     /// initial Arc handles waiting for their owner thread: [arc][thread]
     arc_init: RefCell<Vec<Vec<Option<LArc>>>>,
     aw: loom::future::AtomicWaker,
+    waker_slots: RefCell<Vec<Option<std::task::Waker>>>,
     /// handles returned by threads at their end: [arc]
     arc_returned: RefCell<Vec<Vec<LArc>>>,
 }
@@ -426,6 +427,10 @@ impl Drop for Env {
     fn drop(&mut self) {
         for rx in self.receivers.borrow_mut().drain(..).flatten() {
             std::mem::forget(rx);
+        }
+        for w in self.waker_slots.borrow_mut().drain(..).flatten() {
+            // dropping a waker is a loom operation (Arc decrement): not at teardown
+            std::mem::forget(w);
         }
         for hs in self.arc_returned.borrow_mut().drain(..) {
             for h in hs {
@@ -812,6 +817,47 @@ fn exec(cx: &mut Ctx, op: &Op, pc: usize) -> Option<u64> {
             env.aw.wake();
             None
         }
+        Op::BlockOn2 { a, va, b, vb, o } => {
+            let e2 = env.clone();
+            let mut first = true;
+            loom::future::block_on(std::future::poll_fn(move |cx| {
+                if first {
+                    first = false;
+                    let w0 = cx.waker().clone();
+                    let w1 = cx.waker().clone();
+                    let mut slots = e2.waker_slots.borrow_mut();
+                    slots[0] = Some(w0);
+                    slots[1] = Some(w1);
+                }
+                let x = e2.atomics[a as usize].load(o.to_std());
+                rec(tid, pc, HK::Spin, Some(x));
+                if x != va {
+                    return std::task::Poll::Pending;
+                }
+                let y = e2.atomics[b as usize].load(o.to_std());
+                rec(tid, pc, HK::Spin, Some(y));
+                if y != vb {
+                    return std::task::Poll::Pending;
+                }
+                std::task::Poll::Ready(())
+            }));
+            None
+        }
+        Op::SlotWake { i, by_ref } => {
+            if by_ref {
+                let w = env.waker_slots.borrow()[i as usize].clone();
+                // (clone for borrow reasons only; wake_by_ref on the clone, then drop it)
+                if let Some(w) = w {
+                    w.wake_by_ref();
+                }
+            } else {
+                let w = env.waker_slots.borrow_mut()[i as usize].take();
+                if let Some(w) = w {
+                    w.wake();
+                }
+            }
+            None
+        }
         Op::StopExploring => {
             loom::stop_exploring();
             None
@@ -876,6 +922,7 @@ fn model_body(p: StdArc<Program>) {
         join: RefCell::new((0..nt).map(|_| None).collect()),
         threads: RefCell::new((0..nt).map(|_| None).collect()),
         aw: loom::future::AtomicWaker::new(),
+        waker_slots: RefCell::new(vec![None, None]),
         arc_returned: RefCell::new((0..p.arcs.len()).map(|_| Vec::new()).collect()),
         arc_init: RefCell::new(arc_init),
         p: p.clone(),
